@@ -312,6 +312,20 @@ func runC14(c *ctx) {
 			idx++
 		}
 	}
+	// --- millions of consecutive skipped tokens (stack growth of a recursive scanner)
+	for i, t := range []string{
+		"grammar g ; " + strings.Repeat(" \n", 3000000) + " start = \"a\" ;\n",
+		"grammar g ; " + strings.Repeat("//\n", 1500000) + " start = \"a\" ;\n",
+		"grammar g ; start = \"a\" ;" + strings.Repeat("/**/ ", 1200000),
+	} {
+		if c.mineIdx(idx + i) {
+			c14Run(c, "ebnf-ast.Parse(huge)", fmt.Sprintf("%d bytes: %q ...", len(t), t[:40]), func() (bool, error) {
+				g, err := east.Parse(fileName, strings.NewReader(t))
+				return g == nil, err
+			})
+			c.count("huge_texts", 1)
+		}
+	}
 	// --- patterns
 	alpha := []rune(`\|.?*+()[]{}$a0Ax-,:^ps1`)
 	maxLen := c.n(3, 4)
